@@ -359,6 +359,13 @@ Fixpoint zcode (q : list N -> nat -> N) (order : nat) (path : list N) (idx : nat
   | S o => let r := q path idx in r :: zcode q o (path ++ [r]) idx
   end.
 
+(* the quadrant oracle rebuilt from the codes the hook records along every
+   point's OWN path (one list of `order` quadrants per point).  Queries off a
+   point's own path or below depth `order` never occur
+   (ZOracleProofs.zcurve_codes_oracle); they would read the default. *)
+Definition oracle_of_codes (codes : list (list N)) (path : list N) (i : nat) : N :=
+  nth (length path) (nth i codes []) 0%N.
+
 (* lexicographic order on codes *)
 Fixpoint lex_leb (a b : list N) : bool :=
   match a, b with
